@@ -1190,6 +1190,102 @@ def stream_viewer(R):
                    'histograms read in between, compared with a viewer built from scratch on the mutated objects')
 
 
+def six_minus(x):
+    return 6 - x
+
+
+def stream_histstate(R):
+    """keyed cache of HistogramLayerState (no viewer, no layer artist): change ONE input the key has to cover -- the attribute (incl. a different
+    attribute with the SAME label, reachable through a non-identity link), a limit, the number of bins, log -- keep every other key field equal,
+    read the histogram, compare with freshly constructed state objects that are given the final settings once"""
+    n = R.pick(150, 1200)
+    try:
+        from glue.viewers.histogram.state import HistogramViewerState, HistogramLayerState
+    except Exception as e:
+        R.note('histogram viewer state not importable: %s' % e)
+        return
+    from glue.core import Data, DataCollection
+    from glue.core.component_link import ComponentLink
+    done = 0
+    for i in range(n):
+        rng = C1.case_rng(R.seed, 'histstate', i)
+        n1, n2 = rng.randint(4, 8), rng.randint(3, 6)
+        d1 = Data(x=np.array([float(rng.randint(1, 5)) for _ in range(n1)]), y=np.array([float(rng.randint(1, 5)) for _ in range(n1)]), label='catalogue 1')
+        d2 = Data(x=np.array([float(rng.randint(1, 5)) for _ in range(n2)]), label='catalogue 2')
+        dc = DataCollection([d1, d2])
+        dc.add_link(ComponentLink([d1.id['x']], d2.id['x'], using=six_minus, inverse=six_minus))
+        atts = {'x1': d1.id['x'], 'x2': d2.id['x'], 'y1': d1.id['y']}
+
+        def make_states():
+            vs = HistogramViewerState()
+            vs.data_collection = dc
+            l1 = HistogramLayerState(layer=d1, viewer_state=vs)
+            l2 = HistogramLayerState(layer=d2, viewer_state=vs)
+            vs.layers.append(l1)
+            vs.layers.append(l2)
+            return vs, [l1, l2]
+
+        def apply(vs, st):
+            vs.x_att = atts[st['att']]
+            vs.x_log = st['log']
+            vs.hist_x_min, vs.hist_x_max, vs.hist_n_bin = st['lo'], st['hi'], st['n']
+
+        def read(layers):
+            out = []
+            for l in layers:
+                try:
+                    e, h = l.histogram
+                    out.append((np.array(e, dtype=float), np.array(h, dtype=float)))
+                except Exception as ex:
+                    out.append(type(ex).__name__)
+            return out
+
+        def same(a, b):
+            return len(a) == len(b) and all((isinstance(p, str) and p == q) or (not isinstance(p, str) and not isinstance(q, str) and
+                                            np.array_equal(p[0], q[0]) and np.array_equal(p[1], q[1])) for p, q in zip(a, b))
+        st = {'att': rng.choice(['x1', 'x2', 'y1']), 'log': False, 'lo': 0.5, 'hi': 5.5, 'n': 5}
+        steps = [dict(st)]
+        for _ in range(rng.randint(1, 5)):
+            st = dict(st)
+            k = rng.choice(['att', 'att', 'att', 'lo', 'hi', 'n', 'log'])
+            if k == 'att':
+                st['att'] = rng.choice([a for a in ['x1', 'x2', 'y1'] if a != st['att']])
+            elif k == 'lo':
+                st['lo'] = rng.choice([v for v in [0.5, 1.5, 2.5] if v != st['lo']])
+            elif k == 'hi':
+                st['hi'] = rng.choice([v for v in [5.5, 4.5, 3.5] if v != st['hi']])
+            elif k == 'n':
+                st['n'] = rng.choice([v for v in [5, 3, 10] if v != st['n']])
+            else:
+                st['log'] = not st['log']
+            steps.append(st)
+        vs, layers = make_states()
+        bad = None
+        try:
+            for j, stj in enumerate(steps):
+                apply(vs, stj)
+                got = read(layers)
+                fvs, flayers = make_states()
+                apply(fvs, stj)
+                fresh = read(flayers)
+                if not same(got, fresh):
+                    bad = 'after settings %r (previous %r): live histograms %s, freshly constructed states %s' % (
+                        stj, steps[j - 1] if j else None, [p if isinstance(p, str) else p[1].tolist() for p in got],
+                        [p if isinstance(p, str) else p[1].tolist() for p in fresh])
+                    break
+        except Exception as e:
+            R.note('histstate stream stopped: %s: %s' % (type(e).__name__, e))
+            return
+        R.count(('histstate', R.seed, i, repr(steps)), nontrivial=len(steps) > 1, stream='histstate')
+        done += 1
+        if bad:
+            R.fail('oracle', {'stream': 'histstate', 'seed': R.seed, 'i': i, 'steps': steps}, bad)
+    R.stream('histstate', cases=done, exhaustive=False,
+             bound='HistogramViewerState + HistogramLayerState for two linked catalogues that both have a column `x` (x2 = 6 - x1): 2-6 settings, each differing '
+                   'from the previous one in exactly one of {x_att (x of 1, x of 2, y of 1), hist_x_min, hist_x_max, hist_n_bin, x_log}, histogram of both layers '
+                   'read after each, compared with freshly constructed states')
+
+
 def run(R):
     R.rule = ('a case = a world (seeded) + a history of evaluation requests and mutations; non-trivial when it has at least one mutation and one '
               'request; distinct = distinct (world, history)')
@@ -1200,6 +1296,7 @@ def run(R):
     stream_reroute(R, ctab)
     stream_random(R, ctab)
     stream_viewer(R)
+    stream_histstate(R)
     C1.clear_all_caches()
 
 
